@@ -46,7 +46,7 @@ func c06Opts() lab.GenOpts {
 	return lab.GenOpts{
 		Engines: []string{"v1", "v2"}, MaxSources: 3, MaxDests: 3, MaxRecords: 14, MaxProcs: 2,
 		Nacks: true, ProcErrors: true, Filters: true, Splits: true, Conditions: true, Workers: true,
-		UnlimitedDLQ: true, GateCommits: true, GateAcks: true,
+		UnlimitedDLQ: true, GateCommits: true, GateAcks: true, FreeSched: 15,
 		ClientKinds: []string{"stopandwait", "stopwait", "stopallwait"}, ClientProb: 1.0,
 	}
 }
